@@ -366,6 +366,16 @@ def gen_defined_word(rng):
     return ns | ty << 8 | b2 << 16 | fl << 24 | rng.getrandbits(32) << 32
 
 
+def shuffled(rng, d):
+    """The same dict with its keys in another order (a plist dictionary has no meaningful key order; Apple's binary
+    plists arrive in hash order)."""
+    if rng.random() < 0.5:
+        return d
+    keys = list(d)
+    rng.shuffle(keys)
+    return {k: d[k] for k in keys}
+
+
 def gen_placeholder(rng, S, subset=None):
     keys = subset if subset is not None else [k for k in ('rs', 't', 'tn', 'ty') if rng.random() < 0.5]
     p = {}
@@ -373,7 +383,7 @@ def gen_placeholder(rng, S, subset=None):
         p[k] = [gen_idx(rng, S) for _ in range(rng.choice([0, 1, 1, 2, 3]))] if k == 't' else gen_idx(rng, S)
     p['w'] = gen_int(rng)
     p['p'] = gen_int(rng)
-    return p
+    return shuffled(rng, p)
 
 
 def gen_arg(rng, S, subset=None, cat=None, avail=None):
@@ -390,7 +400,7 @@ def gen_arg(rng, S, subset=None, cat=None, avail=None):
             a[k] = gen_idx(rng, S) if ('c' in keys and cat == 2) else gen_plain(rng, 1)
         else:
             a[k] = gen_int(rng)
-    return a
+    return shuffled(rng, a)
 
 
 def gen_segment(rng, S):
@@ -403,7 +413,7 @@ def gen_segment(rng, S):
         seg['a'] = gen_arg(rng, S)
     if rng.random() < 0.1:
         seg['zz'] = gen_plain(rng)
-    return seg
+    return shuffled(rng, seg)
 
 
 def gen_decomposed(rng, S):
